@@ -14,7 +14,7 @@ CHECKS = {
  "C02": ("exploration", "chain+world",
          "shadow-oracle monitor over ABCI histories of the real app with honest/lazy/byzantine pigeons, stake churn, jailing and governance nonce overrides",
          "Seeded hostile histories of the real application: a simulated remote chain emits events, one pigeon per validator votes (honest, late, or for an altered claim), stake moves, validators get jailed/unjailed, governance moves the oracle cursor down/up/to the same value and back. After every block the shadow oracle re-derives from the stored attestation records and staking powers: duplicate-free vote lists, distinct voters' power*100 > 66*total for every claim that took effect, strictly consecutive nonces, one claim per nonce per reset epoch, cursor advance == number of effects, and supply/receiver effects applied exactly once. Held = held on those histories.",
-         "Stored powers after a block equal those the tally saw (module order); jailing via valset.Jail; compass hand-over resets only at bring-up.",
+         "Stored powers after a block equal those the tally saw (module order); jailing via valset.Jail; compass hand-over resets only at bring-up; the remote chain of this workload emits deposit and executed-batch events - light-node sale events are not emitted, although the shadow oracle knows the claim type (their claim identity is decided by C11; seed C02-k is caught there, not here).",
          "DESIGN.md §2 C02"),
  "C03": ("exploration", "chain+world",
          "view-diff monitor over an enumerated (message type x attack role) matrix delivered through the real ante chain and router on forked states, cross-checked against real ABCI blocks",
